@@ -94,7 +94,7 @@ theorem C05_numbers_fit_iff (l : LSt) (evs : List LEv) :
     CompIDs, the same BeginString — every other setting free (roles, chunk size, heartbeat settings, latency check,
     RefreshOnLogon, DefaultApplVerID, the five validator settings) with no data dictionary configured (with one, whether the
     peer's traffic passes depends on what the dictionary says) and EnableNextExpectedMsgSeqNum off (with it a Logon is
-    followed by a gap fill over whatever the peer's tag 789 reports missing, application messages included — `cexNx` below) —
+    followed by a gap fill over whatever the peer's tag 789 reports missing — nothing is replayed; see `cexNxA` below) —
     every history of connects, sends on both sides (non-empty payload ids),
     deliveries of the oldest message in flight, cuts losing everything in flight, restarts of either engine on its
     store, timer events and flushes, as long as the sequence numbers fit a Go `int`: what B's application received is
@@ -218,29 +218,19 @@ def cexHistory : List LEv :=
   && !cexB.resetOnLogon && !cexB.resetOnLogout && !cexB.resetOnDisconnect && cexA.validator.app.isNone && cexB.validator.app.isNone
   && !cexA.nextExpected && !cexB.nextExpected
 
-/-! ### … and with EnableNextExpectedMsgSeqNum on both engines it is false too (hypotheses `hnxa hnxb` of `C05_safety`)
+/-! ### EnableNextExpectedMsgSeqNum on both engines (hypotheses `hnxa hnxb` of `C05_safety`: the theorems say nothing then)
 
-B submits b1, b2; both are lost in flight; the engines reconnect.  A's Logon announces 789 = 2 (it still expects b1).  B — whose
-next outbound number is 4 — accepts, replies, and answers the 789 with ONE SequenceReset-GapFill 2 → 5: `handleLogon` never
-replays anything.  A finds the Logon reply too high and queues a ResendRequest, then gets the gap fill numbered exactly what it
-expects and skips to 5; b1 and b2, resent by B on the request, arrive as duplicates and are dropped.  b3 is delivered:
-dlvA = ["b3"] is not a prefix of sentB = ["b1", "b2", "b3"].  The same history with the option off delivers everything.
-The REAL engines do the same, line by line (corpus/C05/nx-gapfill-loses-messages.ops, family `link` with `nx=1`). -/
+What the code does (observation, no property speaks about tag 789): the initiator's Logon announces `NextTargetMsgSeqNum()+1`
+in tag 789, one more than it expects; a quickfix acceptor in sync with it has exactly that number minus one as its next
+outbound number and refuses the Logon ("Tag 789 is higher than expected"): the first logon attempt of two fresh engines
+fails with a Logout.  (The Logout takes number 1, so the second attempt is accepted — and leaves the initiator in recovery.) -/
 def cexNxA : Cfg := { cexA with nextExpected := true }
 def cexNxB : Cfg := { cexB with nextExpected := true }
-def cexNxHistory : List LEv :=
-  [.connect, .deliver .B, .deliver .A,          -- logon handshake
-   .send .B "b1", .flush .B, .send .B "b2", .flush .B,
-   .cut,                                        -- b1, b2 lost in flight
-   .connect, .deliver .B,                       -- A's Logon: 789 = 2; B replies and fills 2 → 5
-   .deliver .A, .deliver .A,                    -- A: the reply (too high: ResendRequest queued), then the gap fill: expected number 5
-   .flush .A, .deliver .B,                      -- B answers the request: b1, b2 resent
-   .deliver .A, .deliver .A, .deliver .A,       -- … and dropped as duplicates
-   .send .B "b3", .flush .B, .deliver .A]
-#guard (let l := runLink (linkInit cexNxA cexNxB) cexNxHistory; (l.sentB, l.dlvA, safe l.sentA l.sentB l.dlvA l.dlvB))
-       == (["b1", "b2", "b3"], ["b3"], false)
-#guard (let l := runLink (linkInit cexA cexB) cexNxHistory; (l.sentB, l.dlvA, safe l.sentA l.sentB l.dlvA l.dlvB))
-       == (["b1", "b2", "b3"], ["b1", "b2", "b3"], true)
+#guard (let l := runLink (linkInit cexNxA cexNxB) [.connect, .deliver .B]
+        (l.b.st.name, l.b2a.map (fun o => (o.kind, o.seq)), l.a2b.length)) == ("Latent", [("5", 1)], 0)
+#guard (let l := runLink (linkInit cexNxA cexNxB) [.connect, .deliver .B, .deliver .A, .connect, .deliver .B, .deliver .A]
+        (l.a.st.name, l.b.st.name)) == ("Resend", "InSession")
+#guard (let l := runLink (linkInit cexA cexB) [.connect, .deliver .B, .deliver .A]; (l.a.st.name, l.b.st.name)) == ("InSession", "InSession")
 
 /-- the mechanism behind the counterexample, for every state: an application message whose payload field is empty,
     arriving exactly at the expected number, is refused by the default validator with ValidateFieldsHaveValues on (its
